@@ -27,6 +27,7 @@ EXPLANATION = (
     "with json_pointer::parse for 0..40 segments (loop-carried "
     "values), the derive macro's generated code, decoding of arbitrary body bytes (serde/beve)."
     ' (request-is-the-routing-key, closed over delegations) every in-crate function that receives a request and delegates to HandlerErased::handle* / Middleware::handle / Next::run hands on the request it received.'
+    ' An entry wrapped in a chain assembled in the function is accepted when that chain is what the function stores into self.middlewares on every way out; a wrap in self.middlewares before the same function replaces the list is reported.'
 )
 ASSUMPTIONS = ["str::strip_prefix / starts_with / split have their std semantics"]
 
